@@ -10,7 +10,7 @@ import (
 
 // H_C01_Cert: ReadCertificate -> Bytes round trip, free-form, every N in 0..Nmax, type and length bytes symbolic.
 //
-//verif:props C01 C03
+//verif:props C01 C03 C04
 //verif:witness accepted
 func H_C01_Cert() {
 	max := 10
